@@ -9,43 +9,53 @@ Open Scope Z_scope.
 Example vs_refines_hyp : 8 <= isize_max /\ vinv 8 (mkVS [4;10;2;1;3;77;78;79] 5).
 Proof. split; [unfold isize_max; lia|]. split; cbn; [reflexivity|lia]. Qed.
 
-(* value_stack.rs tests `copy_index` and `move_index`: [4,10,2,1,3] -> [4,10,2,1,10] and [4,2,1,10] *)
-Example spec_copy_unit_test : spec_copy_index [4;10;2;1;3] = ([4;10;2;1;10], Ok tt).
+(* value_stack.rs tests `copy_index` and `move_index`: [4,10,2,1,3] -> [4,10,2,1,10] and [4,2,1,10] (unchanged by 5407d30) *)
+Example spec_copy_unit_test : spec_copy_index 8 true [4;10;2;1;3] = ([4;10;2;1;10], Ok tt).
 Proof. reflexivity. Qed.
-Example spec_move_unit_test : spec_move_index [4;10;2;1;3] = ([4;2;1;10], Ok tt).
+Example spec_move_unit_test : spec_move_index true [4;10;2;1;3] = ([4;2;1;10], Ok tt).
 Proof. reflexivity. Qed.
-Example model_copy_unit_test : option_map (fun r => (stk (fst r), snd r)) (vs_copy_index (mkVS [4;10;2;1;3;77;78;79] 5))
+Example model_copy_unit_test : option_map (fun r => (stk (fst r), snd r)) (vs_copy_index true (mkVS [4;10;2;1;3;77;78;79] 5))
                                = Some ([4;10;2;1;10], Ok tt).
 Proof. reflexivity. Qed.
-Example model_move_unit_test : option_map (fun r => (stk (fst r), snd r)) (vs_move_index (mkVS [4;10;2;1;3;77;78;79] 5))
+Example model_move_unit_test : option_map (fun r => (stk (fst r), snd r)) (vs_move_index false (mkVS [4;10;2;1;3;77;78;79] 5))
                                = Some ([4;2;1;10], Ok tt).
 Proof. reflexivity. Qed.
 
-(* boundary arguments (bottom-first lists; the last element is the index operand).  len = 4 below. *)
-Example copy_idx_0      : spec_copy_index [11;21;31;0] = ([11;21;31;0], Ok tt).            Proof. reflexivity. Qed.
-Example copy_idx_1      : spec_copy_index [11;21;31;1] = ([11;21;31;31], Ok tt).           Proof. reflexivity. Qed.
-Example copy_idx_lenm1  : spec_copy_index [11;21;31;3] = ([11;21;31;11], Ok tt).           Proof. reflexivity. Qed.
-Example copy_idx_len    : spec_copy_index [11;21;31;4] = ([11;21;31;4], Err EUnderflow).   Proof. reflexivity. Qed.
-Example copy_idx_neg    : spec_copy_index [11;21;31;-1] = ([11;21;31;-1], Err EUnderflow). Proof. reflexivity. Qed.
-Example copy_idx_min    : spec_copy_index [11;21;31;-2147483648] = ([11;21;31;-2147483648], Err EUnderflow). Proof. reflexivity. Qed.
-Example copy_idx_max    : spec_copy_index [11;21;31;2147483647] = ([11;21;31;2147483647], Err EUnderflow).   Proof. reflexivity. Qed.
-Example copy_idx_empty  : spec_copy_index [] = ([], Err EUnderflow).                       Proof. reflexivity. Qed.
-Example move_idx_0      : spec_move_index [11;21;31;0] = ([11;21;0], Ok tt).               Proof. reflexivity. Qed.
-Example move_idx_0_len1 : spec_move_index [0] = ([0], Err EUnderflow).                     Proof. reflexivity. Qed.
-Example move_idx_1      : spec_move_index [11;21;31;1] = ([11;21;31], Ok tt).              Proof. reflexivity. Qed.
-Example move_idx_2      : spec_move_index [11;21;31;2] = ([11;31;21], Ok tt).              Proof. reflexivity. Qed.
-Example move_idx_lenm1  : spec_move_index [11;21;31;3] = ([21;31;11], Ok tt).              Proof. reflexivity. Qed.
-Example move_idx_len    : spec_move_index [11;21;31;4] = ([11;21;31;4], Err EUnderflow).   Proof. reflexivity. Qed.
-Example move_idx_neg    : spec_move_index [11;21;31;-3] = ([11;21;31;-3], Err EUnderflow). Proof. reflexivity. Qed.
-Example move_idx_min    : spec_move_index [11;21;31;-2147483648] = ([11;21;31;-2147483648], Err EUnderflow). Proof. reflexivity. Qed.
+(* boundary arguments (bottom-first lists; the last element is the index operand; depth below it = 3) *)
+Example copy_idx_0_np   : spec_copy_index 8 false [11;21;31;0] = ([11;21;31;0], Ok tt).                         Proof. reflexivity. Qed.
+Example copy_idx_0_ped  : spec_copy_index 8 true  [11;21;31;0] = ([11;21;31], Err (EInvalidStackValue 0)).       Proof. reflexivity. Qed.
+Example copy_idx_1      : spec_copy_index 8 true  [11;21;31;1] = ([11;21;31;31], Ok tt).                        Proof. reflexivity. Qed.
+Example copy_idx_depth  : spec_copy_index 8 false [11;21;31;3] = ([11;21;31;11], Ok tt).                        Proof. reflexivity. Qed.
+Example copy_idx_over_np  : spec_copy_index 8 false [11;21;31;4] = ([11;21;31;0], Ok tt).                       Proof. reflexivity. Qed.
+Example copy_idx_over_ped : spec_copy_index 8 true  [11;21;31;4] = ([11;21;31], Err (EInvalidStackValue 4)).     Proof. reflexivity. Qed.
+Example copy_idx_neg_ped  : spec_copy_index 8 true  [11;21;31;-1] = ([11;21;31], Err (EInvalidStackValue (-1))). Proof. reflexivity. Qed.
+Example copy_idx_min_np   : spec_copy_index 8 false [11;21;31;-2147483648] = ([11;21;31;0], Ok tt).             Proof. reflexivity. Qed.
+Example copy_idx_max_ped  : spec_copy_index 8 true [11;21;31;2147483647] = ([11;21;31], Err (EInvalidStackValue 2147483647)). Proof. reflexivity. Qed.
+Example copy_idx_empty_ped : spec_copy_index 8 true [] = ([], Err EUnderflow).                                  Proof. reflexivity. Qed.
+Example copy_idx_empty_np  : spec_copy_index 8 false [] = ([0], Ok tt).                                         Proof. reflexivity. Qed.
+Example copy_idx_empty_cap0 : spec_copy_index 0 false [] = ([], Err EOverflow).                                 Proof. reflexivity. Qed.
+Example move_idx_0_np   : spec_move_index false [11;21;31;0] = ([11;21;31], Ok tt).                             Proof. reflexivity. Qed.
+Example move_idx_0_ped  : spec_move_index true  [11;21;31;0] = ([11;21;31], Err (EInvalidStackValue 0)).         Proof. reflexivity. Qed.
+Example move_idx_0_len1 : spec_move_index false [0] = ([], Ok tt).                                              Proof. reflexivity. Qed.
+Example move_idx_1      : spec_move_index true  [11;21;31;1] = ([11;21;31], Ok tt).                             Proof. reflexivity. Qed.
+Example move_idx_2      : spec_move_index true  [11;21;31;2] = ([11;31;21], Ok tt).                             Proof. reflexivity. Qed.
+Example move_idx_depth  : spec_move_index false [11;21;31;3] = ([21;31;11], Ok tt).                             Proof. reflexivity. Qed.
+Example move_idx_over_np  : spec_move_index false [11;21;31;4] = ([11;21;31], Ok tt).                           Proof. reflexivity. Qed.
+Example move_idx_over_ped : spec_move_index true  [11;21;31;4] = ([11;21;31], Err (EInvalidStackValue 4)).       Proof. reflexivity. Qed.
+Example move_idx_min_ped  : spec_move_index true [11;21;31;-2147483648] = ([11;21;31], Err (EInvalidStackValue (-2147483648))). Proof. reflexivity. Qed.
+Example move_idx_empty_ped : spec_move_index true [] = ([], Err EUnderflow).                                    Proof. reflexivity. Qed.
+Example move_idx_empty_np  : spec_move_index false [] = ([], Ok tt).                                            Proof. reflexivity. Qed.
+(* the pre-5407d30 witness of the reported defect: MINDEX 0 on [a, b, 0] gave [a, 0] (cell below the index clobbered);
+   the model of the fixed code leaves [a, b] *)
+Example move_idx_0_fixed : option_map (fun r => (stk (fst r), snd r)) (vs_move_index false (mkVS [11;21;0] 3)) = Some ([11;21], Ok tt).
+Proof. reflexivity. Qed.
 
-(* c02_copy_index_spec / c02_move_index_spec: every hypothesis of every clause is satisfiable *)
+(* c02_copy_index_spec / c02_move_index_spec / c02_index_ops_pedantic_only_on_bad_index: hypotheses satisfiable *)
 Example copy_cases_hyps :
-  zlen [11;21;31;-1] <= isize_max /\ (-1 < 0 /\ - 2 ^ 63 <= -1) /\
-  (0 <= 4 < 2 ^ 64 /\ zlen [31;21;11] < 4) /\ (0 <= 3 <= zlen [31;21;11]).
-Proof. unfold isize_max, zlen. cbn. lia. Qed.
-Example move_cases_hyps : (1 <= 3 <= zlen [31;21;11]) /\ (exists y r', [31;21;11] = y :: r').
-Proof. split; [unfold zlen; cbn; lia|eauto]. Qed.
+  zlen [11;21;31;-1] <= 8 /\ bad_index (-1) [31;21;11] /\ bad_index 4 [31;21;11] /\ (1 <= 3 <= zlen [31;21;11]).
+Proof. unfold bad_index, zlen. cbn. lia. Qed.
+Example ped_matters_good : good_index_on_top [11;21;31;3] /\ ~ good_index_on_top [11;21;31;4] /\ ~ good_index_on_top [].
+Proof. unfold good_index_on_top, zlen. cbn. lia. Qed.
 
 (* c02_value_stack_run_is_list_machine: a run with overflow, underflow, CINDEX/MINDEX at hostile indices;
    the model (run on a 3-cell store) and the list machine give the same observations and final stack *)
@@ -61,8 +71,14 @@ Example run_agrees :
   option_map (fun r => (stk (fst r), snd r)) (vs_run true demo_ops (mkVS [9;9;9] 0)) = Some (spec_run 3 true demo_ops []).
 Proof. vm_compute. reflexivity. Qed.
 Example run_nontrivial : exists l obs, spec_run 3 true demo_ops [] = (l, obs) /\
-  existsb (fun o => fst (fst o) =? 1) obs = true /\ existsb (fun o => fst (fst o) =? 2) obs = true /\
+  existsb (fun o => fst (fst o) =? 3) obs = true /\ existsb (fun o => fst (fst o) =? 2) obs = true /\
   existsb (fun o => fst (fst o) =? 0) obs = true.
+Proof. eexists _, _. split; [vm_compute; reflexivity|]. vm_compute. auto. Qed.
+Example run_agrees_np :
+  option_map (fun r => (stk (fst r), snd r)) (vs_run false demo_ops (mkVS [9;9;9] 0)) = Some (spec_run 3 false demo_ops []).
+Proof. vm_compute. reflexivity. Qed.
+Example run_nontrivial_np : exists l obs, spec_run 3 false demo_ops [] = (l, obs) /\
+  existsb (fun o => fst (fst o) =? 1) obs = true /\ existsb (fun o => fst (fst o) =? 0) obs = true.
 Proof. eexists _, _. split; [vm_compute; reflexivity|]. vm_compute. auto. Qed.
 
 (* c02_value_stack_composite_closed_forms: hypotheses satisfiable; value_stack.rs tests `swap`, `roll`, `dup` *)
@@ -75,7 +91,7 @@ Example dup_unit_test  : spec_dup 4 true [1;2;3] = ([1;2;3;3], Ok tt). Proof. re
 Example swap_partial   : option_map (fun r => (stk (fst r), snd r)) (vs_swap true (mkVS [5;9] 1)) = Some ([], Err EUnderflow).
 Proof. reflexivity. Qed.
 
-(* c02_index_ops_ignore_pedantic is unconditional; a non-trivial instance *)
-Example ped_irrelevant : vs_step true OMoveIndex (mkVS [1;2;-1] 3) = vs_step false OMoveIndex (mkVS [1;2;-1] 3)
-  /\ exists s, vs_step false OMoveIndex (mkVS [1;2;-1] 3) = Some (s, (2, 0, 3)).
-Proof. split; [reflexivity|]. eexists. reflexivity. Qed.
+(* the pedantic flag changes the outcome on a bad index (model level) *)
+Example ped_matters_model : vs_step true OMoveIndex (mkVS [1;2;-1] 3) <> vs_step false OMoveIndex (mkVS [1;2;-1] 3)
+  /\ exists s, vs_step true OMoveIndex (mkVS [1;2;-1] 3) = Some (s, (3, -1, 2)).
+Proof. split; [vm_compute; discriminate|]. eexists. reflexivity. Qed.
